@@ -33,3 +33,25 @@ def describe(fid):
         if kf['id'] == fid:
             return kf.get('title', '')
     return ''
+
+
+def _steps(hist, op):
+    return [st for st in hist if st.get('op') == op]
+
+
+@signature('F20')
+def _f20(hist, mm):
+    """apply_mask without mask_bits on a signed integer mask holding a negative value"""
+    ams = [st for st in _steps(hist, 'amask') if st.get('mode', 'none') == 'none']
+    if not ams:
+        return False
+    if not all(m['layer'] == 'L0' for m in mm):
+        return False
+    for st in ams:
+        hm = st['hm']
+        for u in hist:
+            if u.get('op') == 'upd' and u.get('h') == hm and u.get('values') is not None:
+                vals = u['values'] if isinstance(u['values'], list) else [u['values']]
+                if any(isinstance(v, (int, float)) and v < 0 for v in vals):
+                    return True
+    return False
